@@ -6,6 +6,7 @@ CONSTANTS
 INVARIANT C17_OpenOnce
 INVARIANT C17_OpensCreated
 INVARIANT C17_Identity
+INVARIANT C17_CachedNotOpened
 INVARIANT C17_CacheSame
 INVARIANT C18_CleanRepos
 INVARIANT C18_RepairedReload
